@@ -34,6 +34,7 @@ func LookalikeStreams() [][]*model.Value {
 		{foo(), model.NullV(model.Struct).WithAnn(T("a"), T("$ion_symbol_table")), model.NullV(model.List).WithAnn(T("$ion_symbol_table")), bar()},
 		{foo(), model.StructV(f("imports", model.SymV(T("$ion_symbol_table"))), f("symbols", model.ListV(model.StrV("zz")))).WithAnn(T("x"), T("$ion_symbol_table")), foo(), bar()},
 	}
+	all = append(all, deepSiblingStreams()...)
 	var out [][]*model.Value
 	for _, s := range all {
 		ok := true
@@ -44,6 +45,38 @@ func LookalikeStreams() [][]*model.Value {
 		}
 		if ok {
 			out = append(out, s)
+		}
+	}
+	return out
+}
+
+// deepSiblingStreams nest containers 7..13, 16, 17, 33 and 65 levels deep with several sibling
+// containers and scalars at every level (a chain alone never makes a reader re-use a level of its stack).
+func deepSiblingStreams() [][]*model.Value {
+	var out [][]*model.Value
+	for _, d := range []int{7, 8, 9, 10, 11, 12, 13, 16, 17, 33, 65} {
+		for shape := 0; shape < 3; shape++ {
+			var build func(lvl int) *model.Value
+			build = func(lvl int) *model.Value {
+				mk := func(kids ...*model.Value) *model.Value {
+					switch (lvl + shape) % 3 {
+					case 0:
+						return model.ListV(kids...)
+					case 1:
+						return model.SexpV(kids...)
+					}
+					st := model.StructV()
+					for i, k := range kids {
+						st.Kids = append(st.Kids, k.WithField(model.T([]string{"a", "b", "c", "d"}[i%4])))
+					}
+					return st
+				}
+				if lvl == d {
+					return mk(model.ListV(model.Int64V(1)), model.ListV(model.Int64V(2), model.StrV("two")), model.StructV(model.ListV(model.Int64V(3)).WithField(model.T("x"))), model.Int64V(4))
+				}
+				return mk(build(lvl+1), model.Int64V(int64(lvl)), model.ListV(model.SymV(model.T("sib")), model.ListV()), model.StrV("after"))
+			}
+			out = append(out, []*model.Value{build(1), model.Int64V(int64(d))})
 		}
 	}
 	return out
